@@ -53,6 +53,8 @@ def metric(B):
 
 
 EV_CASES = [f"{cv}|{wx}|{st}" for cv in ("sliding", "expanding", "single") for wx in ("noX", "X") for st in ("refit", "update")]
+# fit_params given (tuning passes its **fit_params on): an empty dict and a dict with one arbitrary option
+EV_CASES += ["sliding|noX|refit|fp0", "sliding|noX|update|fp1", "sliding|X|refit|fp1", "single|noX|refit|fp1"]
 
 
 def _cv(B, kind):
@@ -62,10 +64,14 @@ def _cv(B, kind):
 
 
 def _ev_inputs(B, case):
-    cvk, wx, st = case.split("|")
+    cvk, wx, st = case.split("|")[:3]
+    fpk = (case.split("|") + [None])[3]
     y = sym_series(B)
+    fp = None
+    if fpk is not None:
+        fp = SDict({} if fpk == "fp0" else {"fit_option": B.opaque("fit_option")})
     return {"forecaster": forecaster(B), "cv": _cv(B, cvk), "y": y, "X": sym_frame(B, y) if wx == "X" else None,
-            "strategy": st, "scoring": metric(B), "fit_params": None, "return_data": False}
+            "strategy": st, "scoring": metric(B), "fit_params": fp, "return_data": False}
 
 
 def cv_kind(cv):
@@ -139,6 +145,10 @@ def _ev_events(S, evs):
              equiv(e_score.arg(0).values, y_test_vals) if isinstance(e_score.arg(0), SSeries) else False]
     if e_fit.method == "fit":
         conds.append(e_fit.kwargs.get("fh") is fh)
+        # fit_params reach every fit call unchanged, nothing else does
+        want_kw = dict(A.fit_params.items) if isinstance(A.fit_params, SDict) else {}
+        got_kw = {k_: v_ for k_, v_ in e_fit.kwargs.items() if k_ not in ("fh", "X", "y")}
+        conds.append(set(got_kw) == set(want_kw) and all(got_kw[k_] is want_kw[k_] for k_ in want_kw))
     if A.X is not None:
         conds += [equiv(e_fit.arg(1, "X"), X_train), equiv(e_pred.kwargs.get("X"), X_test)]
     else:
